@@ -145,6 +145,71 @@ def job_dialects(names):
     return acc
 
 
+MD_EDIT_CHARS = [' ', '#', '*', '-', ':', 'x', '\t', '`']
+
+
+def md_edits(line):
+    seen = {line}
+    for i in range(len(line) + 1):
+        cands = [line[:i] + c + line[i:] for c in MD_EDIT_CHARS]
+        if i < len(line):
+            cands.append(line[:i] + line[i + 1:])
+        for t in cands:
+            if t not in seen:
+                seen.add(t)
+                yield t
+
+
+@worker
+def job_md_edits(names):
+    """Every title keyword as '## k: n' and every step keyword as '* kn', and every single edit of that line, against its entry point."""
+    acc = Acc()
+    line = None
+    for d in names:
+        tm = GherkinInMarkdownTokenMatcher(d)
+        for mt, roles in TITLE.items():
+            for r in roles:
+                for k in D[d][r]:
+                    for line in md_edits(' ## ' + k + ': n'):
+                        case = {'kind': 'md-line', 'dialect': d, 'entry': mt, 'line': line}
+                        acc.n += 1
+                        acc.validated += 1
+                        got, t = call(tm, mt, line, acc, case)
+                        if got is None:
+                            continue
+                        exp = ref_title(d, roles, line)
+                        if bool(got) != (exp is not None):
+                            acc.violation('title-recognition', case, 'match_%s returned %r, expected %r' % (mt, got, exp is not None))
+                        elif got:
+                            acc.nontrivial += 1
+                            g = (t.matched_type, t.matched_keyword, t.matched_text, t.location.get('column'))
+                            if g != (mt,) + exp:
+                                acc.violation('title-fields', case, 'token fields differ', observed=g, expected=(mt,) + exp)
+        for r in STEP:
+            for k in D[d][r]:
+                if k.startswith('*'):
+                    continue
+                for line in md_edits(' * ' + k + 'n'):
+                    if line.lstrip()[:1] not in ('*', '+', '-') and (line.lstrip() + ' ')[0] in '*+-':
+                        continue
+                    case = {'kind': 'md-line', 'dialect': d, 'entry': 'StepLine', 'line': line}
+                    acc.n += 1
+                    acc.validated += 1
+                    got, t = call(tm, 'StepLine', line, acc, case)
+                    if got is None:
+                        continue
+                    exp = ref_step(d, line)
+                    if bool(got) != (exp is not None):
+                        acc.violation('step-recognition', case, 'match_StepLine returned %r, expected %r' % (got, exp is not None))
+                    elif got:
+                        acc.nontrivial += 1
+                        g = (t.matched_type, t.matched_keyword, t.matched_text, t.location.get('column'))
+                        if g != ('StepLine',) + exp:
+                            acc.violation('step-fields', case, 'token fields differ', observed=g, expected=('StepLine',) + exp)
+    acc.sample({'dialect': names[-1], 'line': line})
+    return acc
+
+
 CELLS = ['a', '-', ':-', '-:', ':-:', '--', '']
 SEPS = {'-', ':-', '-:', ':-:', '--'}
 
@@ -233,6 +298,7 @@ def run(ctx):
     ctx.alphabet = {'dialects': len(names), 'header_depths': list(range(1, 8)), 'bullets': ['*', '+', '-', '', '•', '#', '1.', 'note -', '> *', '1. +', 'so-'], 'cells': CELLS, 'tag_names': ['@a', '@tag-2', '@ü😀']}
     ctx.assumptions = ['line-level matching only (end-to-end Markdown parsing is documented as JavaScript-only); match_Comment / match_Empty of the Markdown matcher are outside the property']
     ctx.level('dialects x keywords x layouts', [job_dialects.job(names[i:i + 3]) for i in range(0, len(names), 3)])
+    ctx.level('single edits of every keyword line', [job_md_edits.job(names[i:i + 3]) for i in range(0, len(names), 3)])
     ctx.level('table rows', [job_tables.job(n) for n in (0, 1, 2, 3)] + ([job_tables.job(4)] if not ctx.quick else []))
     ctx.level('tag lines', [job_tags.job(n) for n in (0, 1, 2, 3)])
 
